@@ -144,6 +144,7 @@ def job_identities(name, d, tier):
         R = rnp.array([r], dtype=object)
         del SNUM.fake.calls[:]
         sd = m.spectral_density(K)[0]
+        mvar = m.var  # (TPL models report var = var_raw * var_factor; that this is the constructor's value is C14's obligation)
         dflt = None
         if SNUM.fake.calls:
             kw, f, kk_ = SNUM.fake.calls[0]
@@ -161,7 +162,7 @@ def job_identities(name, d, tier):
         sdr = Sym(OD(r.e))
         pdfn = m.spectral_rad_pdf(rnp.array([-r], dtype=object))[0]
         flags = (m.has_cdf, m.has_ppf, hasattr(m, "spectral_rad_cdf"), hasattr(m, "spectral_rad_ppf"), [f is not None for f in m.dist_func])
-        return sd, sp, pdf, sdr, dflt, direct, lnpdf, pdfn, flags
+        return sd, sp, pdf, sdr, dflt, direct, lnpdf, pdfn, flags, mvar
 
     n_ok = 0
     for pi, p in enumerate(explore(run, max_paths=300)):
@@ -170,11 +171,11 @@ def job_identities(name, d, tier):
             out.append(rec(base, "error", detail=f"{p.exc!r} {p.tb}"))
             continue
         n_ok += 1
-        sd, sp, pdf, sdr, dflt, direct, lnpdf, pdfn, flags = p.out
+        sd, sp, pdf, sdr, dflt, direct, lnpdf, pdfn, flags, mvar = p.out
         C = p.conds
         if any(isinstance(x, float) and x != x for x in (sd, sp, pdf, sdr)):
             continue
-        out.append(prove(base + "/spectrum==var*spectral_density", C, lift(sp) == v.e * lift(sd), T, witness_vars=wv, replay=rb, pairwise=False))
+        out.append(prove(base + "/spectrum==var*spectral_density", C, lift(sp) == (lift(mvar) if name in c03.TPL else v.e) * lift(sd), T, witness_vars=wv, replay=rb, pairwise=False, instantiate=(name not in c03.TPL)))
         fac = {1: z3.RealVal(2), 2: 2 * theory.PI * r.e, 3: 4 * theory.PI * r.e * r.e}[d]
         a = lift(sdr)
         absd = z3.If(a >= 0, a, -a)
